@@ -6,7 +6,9 @@
 (* Part 2: nitro::dl -- every successful open is one *instance* of a loaded library.  dl objects,      *)
 (*   symbols obtained from them and copies of either hold the instance; it is closed exactly once,     *)
 (*   after its last holder is gone, in whatever order the holders go.  Failed opens and failed symbol  *)
-(*   lookups raise the dl exception (with the loader's diagnostic) and change nothing.                 *)
+(*   lookups raise the dl exception (with the loader's diagnostic) and change nothing.  A symbol is      *)
+(*   looked up in the library of the dl object it is asked from and nowhere else: both libraries define  *)
+(*   "common" (and a call tells which one answered), each defines one name the other lacks.              *)
 EXTENDS Naturals, Sequences, FiniteSets, TLC, Json
 
 CONSTANTS EnvNames, EnvVals,     \* variable names; texts (the empty text "" among them)
@@ -24,7 +26,9 @@ VARIABLES env,        \* [EnvNames -> EnvVals \cup {Unset}]
 
 vars == <<env, holder, inst, last>>
 
-None == [kind |-> "none", inst |-> 0]
+None == [kind |-> "none", inst |-> 0, sym |-> ""]
+SymNames == {"common", "own_L1", "own_L2", "nowhere"}
+Defines(lib, name) == name = "common" \/ name = "own_" \o lib
 Init == /\ env = [n \in EnvNames |-> Unset] /\ holder = [h \in 1..NH |-> None] /\ inst = <<>>
         /\ last = [op |-> "init", args |-> <<>>, out |-> "ok", val |-> ""]
 
@@ -50,15 +54,16 @@ Open(h, lib) ==      \* slot h := dl(lib); a dl object already in the slot is de
   /\ IF lib \in Libs
      THEN /\ Len(inst) < MaxInst
           /\ inst' = Append(inst, [lib |-> lib, closes |-> 0])
-          /\ holder' = [holder EXCEPT ![h] = [kind |-> "dl", inst |-> Len(inst) + 1]]
+          /\ holder' = [holder EXCEPT ![h] = [kind |-> "dl", inst |-> Len(inst) + 1, sym |-> ""]]
           /\ Ok("Open", <<h, lib>>, "")
      ELSE Raise("Open", <<h, lib>>, "dl_exception") /\ UNCHANGED <<holder, inst>>
   /\ UNCHANGED env
 
-Load(h, d, present) ==   \* slot h := holder[d].load(symbol)
-  /\ h \in 1..NH /\ d \in 1..NH /\ holder[h].kind = "none" /\ holder[d].kind = "dl" /\ present \in BOOLEAN
-  /\ IF present THEN holder' = [holder EXCEPT ![h] = [kind |-> "sym", inst |-> holder[d].inst]] /\ Ok("Load", <<h, d, present>>, "")
-     ELSE Raise("Load", <<h, d, present>>, "dl_exception") /\ UNCHANGED holder
+Load(h, d, name) ==   \* slot h := holder[d].load(name): resolved in the library of holder[d], nowhere else
+  /\ h \in 1..NH /\ d \in 1..NH /\ holder[h].kind = "none" /\ holder[d].kind = "dl" /\ name \in SymNames
+  /\ IF Defines(inst[holder[d].inst].lib, name)
+     THEN holder' = [holder EXCEPT ![h] = [kind |-> "sym", inst |-> holder[d].inst, sym |-> name]] /\ Ok("Load", <<h, d, name>>, "")
+     ELSE Raise("Load", <<h, d, name>>, "dl_exception") /\ UNCHANGED holder
   /\ UNCHANGED <<env, inst>>
 
 Copy(h, g) ==        \* slot h := copy of the dl object or symbol in slot g
@@ -82,9 +87,9 @@ AssignMove(h, g) ==
   /\ holder' = [holder EXCEPT ![h] = holder[g], ![g] = None]
   /\ Ok("AssignMove", <<h, g>>, "") /\ UNCHANGED env
 
-Call(s) ==           \* calling a symbol: the library must still be mapped
+Call(s) ==           \* calling a symbol: the library must still be mapped, and it is the library it was loaded from that answers
   /\ s \in 1..NH /\ holder[s].kind = "sym"
-  /\ Ok("Call", <<s>>, "cos") /\ UNCHANGED <<env, holder, inst>>
+  /\ Ok("Call", <<s>>, inst[holder[s].inst].lib \o ":" \o holder[s].sym) /\ UNCHANGED <<env, holder, inst>>
 
 Destroy(h) ==
   /\ h \in 1..NH /\ holder[h].kind # "none"
@@ -94,7 +99,7 @@ Destroy(h) ==
 Next ==
   \/ \E n \in EnvNames : (\E v \in EnvVals : SetEnv(n, v)) \/ UnsetEnv(n) \/ GetNoDefault(n) \/ \E d \in Defaults : Get(n, d)
   \/ \E h \in 1..NH : (\E lib \in Libs \cup {"missing"} : Open(h, lib)) \/ Destroy(h) \/ Call(h)
-                      \/ \E g \in 1..NH : Copy(h, g) \/ AssignCopy(h, g) \/ AssignMove(h, g) \/ \E p \in BOOLEAN : Load(h, g, p)
+                      \/ \E g \in 1..NH : Copy(h, g) \/ AssignCopy(h, g) \/ AssignMove(h, g) \/ \E nm \in SymNames : Load(h, g, nm)
 Spec == Init /\ [][Next]_vars
 
 ------------------------------------------------------------------------------------------------------
@@ -102,6 +107,7 @@ MappedWhileHeld == \A i \in 1..Len(inst) : Holders(i) # {} => inst[i].closes = 0
 ClosedOnce == \A i \in 1..Len(inst) : inst[i].closes <= 1
 ClosedWhenUnheld == \A i \in 1..Len(inst) : Holders(i) = {} => inst[i].closes = 1
 FaithfulRead == last.op = "Get" /\ env[last.args[1]] # Unset => last.val = env[last.args[1]]
+ResolvedWhereAsked == \A h \in 1..NH : holder[h].kind = "sym" => Defines(inst[holder[h].inst].lib, holder[h].sym)
 FailuresChangeNothing == [][last'.out # "ok" => holder' = holder /\ inst' = inst /\ env' = env]_vars
 
 (* per library: how many loader opens / closes must have happened *)
